@@ -23,15 +23,9 @@ Models: `Exa.Open` — M-OpenCodec (`encodeOpenG`/`encodeOpen`, `decodeOpen`, `c
 OPEN messages (`o`, `t` arbitrary `OpenMsg`: any capabilities in any order with any repetition,
 any fixed fields) and state every parameter on the raw capability lists.
 
-Strength: every clause is proved in full except
-* **true local AS (finding F4)**: `negotiated.local_as` is read from the 2-octet field of the OPEN
-  we sent, so it is AS_TRANS for a local AS above 65535 — `local_as_F4` proves the negation on all
-  such configurations, `local_as_partial` the clause for local AS ≤ 65535;
-* **refusal for an internal peer with our BGP identifier (F4, same cause)**: `validate` compares
-  the 2-octet field with the configured local AS — `refusals_are_rfc_partial` for a 2-octet local
-  AS, `ibgp_same_id_F4` the witness;
-* **unrecognised optional parameter**: the code answers 2/0 where RFC 4271 §6.2 says 2/4 —
-  `refuse_other_param` states what the code does, the check reports the deviation.
+Strength: every clause is proved in full (F4 — local AS and the internal-peer identifier check
+read from the 2-octet field — and the 2/0 answer to an unrecognised optional parameter were
+repaired in /repo; the witnesses are kept below as examples of the repaired behaviour).
 ADD-PATH octets outside 0..3 are read by the code as a bit mask (RFC 7911: SHOULD be ignored):
 `addpath_send_iff`/`addpath_receive_iff` state the bit-mask behaviour for all octets, the `_rfc`
 forms the RFC reading under `validSR`; `addpath_octet_5_deviation` is the witness.
@@ -68,25 +62,23 @@ theorem true_as_peer_trans (o t : OpenMsg) (a b : Nat) (ho : asn4Of o.caps = som
     (ht : asn4Of t.caps = some a) (hf : t.myAs = asTrans) : (negotiate o t).peerAs = a := by
   rw [negotiate_peerAs]; simp [ho, ht, hf]
 
-/-- **True local AS — partial (F4).** Full clause: `(negotiate (ourOpen cfg) t).localAs = cfg.localAs`
-    for every configuration.  Proved here for a local AS that fits 2 octets; false above
-    (`local_as_F4`). -/
-theorem local_as_partial (cfg : Cfg) (t : OpenMsg) (h : cfg.localAs ≤ 65535) :
+/-- **True local AS.** The local AS in force is the configured one whenever our OPEN carries it:
+    ASN4 enabled (any AS number), or a number that fits the 2-octet field. -/
+theorem true_as_local (cfg : Cfg) (t : OpenMsg) (h : cfg.asn4 = true ∨ cfg.localAs ≤ 65535) :
     (negotiate (ourOpen cfg) t).localAs = cfg.localAs := by
-  have : ¬ cfg.localAs > 65535 := by omega
-  simp [negotiate_localAs, ourOpen, Open.trans, this]
+  rw [negotiate_localAs, show (ourOpen cfg).caps = ourCaps cfg from rfl, ourCaps_asn4Of]
+  cases h4 : cfg.asn4 with
+  | true => simp
+  | false =>
+    have hl : ¬ cfg.localAs > 65535 := by
+      rcases h with h | h
+      · simp [h4] at h
+      · omega
+    simp [ourOpen, Open.trans, hl]
 
-/-- **F4 — the full clause is false of the code.** With a 4-octet local AS the session runs with
-    local AS = AS_TRANS (23456), whatever the peer sends — although our own OPEN carries the real
-    number in its ASN4 capability (`rfcNegotiate` reads it there). -/
-theorem local_as_F4 (cfg : Cfg) (t : OpenMsg) (h : cfg.localAs > 65535) :
-    (negotiate (ourOpen cfg) t).localAs = 23456 ∧ (negotiate (ourOpen cfg) t).localAs ≠ cfg.localAs
-      ∧ (cfg.asn4 = true → (rfcNegotiate (ourOpen cfg) t).localAs = cfg.localAs) := by
-  refine ⟨by simp [negotiate_localAs, ourOpen, Open.trans, h, asTrans], ?_, ?_⟩
-  · simp only [negotiate_localAs, ourOpen, Open.trans, h, if_true, asTrans]; omega
-  · intro h4
-    simp only [rfcNegotiate]
-    rw [show (ourOpen cfg).caps = ourCaps cfg from rfl, ourCaps_asn4Of]; simp [h4]
+/-- …and it is the RFC one for every pair of OPENs. -/
+theorem true_as_local_rfc (o t : OpenMsg) : (negotiate o t).localAs = (rfcNegotiate o t).localAs := by
+  rw [negotiate_localAs]; rfl
 
 /-- **ADD-PATH send ⇔ we send ∧ they receive**, on the Send/Receive octet in force on each side
     (the last entry for the family over all ADD-PATH capabilities of that OPEN), the octets read as
@@ -132,13 +124,11 @@ theorem msgsize (o t : OpenMsg) :
 /-- **Hold time = minimum** of the two Hold Time fields. -/
 theorem hold_min (o t : OpenMsg) : (negotiate o t).hold = min o.hold t.hold := rfl
 
-/-- **All parameters together — partial.** For a peer with RFC-defined octets (`validSR`,
-    `consistentAs`) and our OPEN `o` built with RFC-defined ADD-PATH octets, every parameter of
-    `negotiate` equals the one of the independent specification `rfcNegotiate` — except the local AS,
-    for which `h` (the ASN4 capability we sent repeats the 2-octet field, i.e. local AS ≤ 65535) is
-    needed: F4. -/
-theorem negotiate_is_rfc_partial (o t : OpenMsg) (ho : validSR o.caps) (ht : validSR t.caps)
-    (hc : consistentAs t) (h : ∀ a, asn4Of o.caps = some a → a = o.myAs) :
+/-- **All parameters together.** For a peer with RFC-defined octets (`validSR`, `consistentAs`) and
+    our OPEN `o` built with RFC-defined ADD-PATH octets, every parameter of `negotiate` equals the
+    one of the independent specification `rfcNegotiate`. -/
+theorem negotiate_is_rfc (o t : OpenMsg) (ho : validSR o.caps) (ht : validSR t.caps)
+    (hc : consistentAs t) :
     let n := negotiate o t
     let r := rfcNegotiate o t
     n.hold = r.hold ∧ n.asn4 = r.asn4 ∧ n.localAs = r.localAs ∧ n.peerAs = r.peerAs
@@ -148,10 +138,7 @@ theorem negotiate_is_rfc_partial (o t : OpenMsg) (ho : validSR o.caps) (ht : val
   refine ⟨?_, ?_, ?_, peerAs_eq_rfc o t hc, ?_, ?_, addpath_send_rfc o t ho ht, addpath_receive_rfc o t ho ht, ?_, ?_⟩
   · simp only [negotiate_hold, rfcNegotiate, Nat.min_def]
   · simp only [negotiate_asn4, rfcNegotiate]
-  · simp only [negotiate_localAs, rfcNegotiate]
-    cases e : asn4Of o.caps with
-    | none => rfl
-    | some a => simp [h a e]
+  · exact true_as_local_rfc o t
   · intro f; rw [negotiate_families_mem, rfc_families_mem]
   · intro x; rw [negotiate_nexthop_mem, rfc_nexthop_mem]
   · rw [negotiate_refresh]; rfl
@@ -265,15 +252,14 @@ theorem refuse_auth_param (ext : Bool) (myAs hold bgpId : Nat) (gs : List (List 
   have := decodeOpen_other_param ext myAs hold bgpId gs 1 v tail hf hg (by decide) hv hl
   simpa using this
 
-/-- **any other parameter type → 2/0 (what the code does).** RFC 4271 §6.2 requires 2/4
-    (Unsupported Optional Parameters) here: deviation reported by the check. -/
+/-- **any other parameter type → 2/4** (Unsupported Optional Parameters, RFC 4271 §6.2). -/
 theorem refuse_other_param (ext : Bool) (myAs hold bgpId : Nat) (gs : List (List Cap)) (k : Nat) (v tail : Bytes)
     (hf : wfFixed myAs hold bgpId = true) (hg : gs.all (wfGroup ext) = true) (hk1 : k ≠ 1) (hk2 : k ≠ 2)
     (hv : v.length < (if ext then 65536 else 256))
     (hl : (encParams ext gs ++ (rawParam ext k v ++ tail)).length < (if ext then 65536 else 255)) :
-    decodeOpen (openRaw ext myAs hold bgpId (encParams ext gs ++ (rawParam ext k v ++ tail))) = .error ⟨2, 0⟩ := by
+    decodeOpen (openRaw ext myAs hold bgpId (encParams ext gs ++ (rawParam ext k v ++ tail))) = .error ⟨2, 4⟩ := by
   have := decodeOpen_other_param ext myAs hold bgpId gs k v tail hf hg hk2 hv hl
-  simpa [hk1, malformed] using this
+  simpa [hk1] using this
 
 /-- **bad_peer_as → 2/2**: a peer AS is configured and the peer AS in force differs. -/
 theorem refuse_bad_peer_as (cfg : Cfg) (n : Negotiated) (t : OpenMsg) (h0 : cfg.peerAs ≠ 0)
@@ -289,24 +275,21 @@ theorem refuse_bad_id (cfg : Cfg) (n : Negotiated) (t : OpenMsg)
 /-- **hold_1_2 → 2/6**: hold time 1 or 2 when nothing earlier refuses. -/
 theorem refuse_hold_1_2 (cfg : Cfg) (n : Negotiated) (t : OpenMsg)
     (hp : ¬ (cfg.peerAs ≠ 0 ∧ n.peerAs ≠ cfg.peerAs)) (hi : t.bgpId ≠ 0)
-    (hc : ¬ (t.myAs = cfg.localAs ∧ t.bgpId = cfg.routerId)) (h : t.hold = 1 ∨ t.hold = 2) :
+    (hc : ¬ (n.peerAs = cfg.localAs ∧ t.bgpId = cfg.routerId)) (h : t.hold = 1 ∨ t.hold = 2) :
     validateOpen cfg n t = some ⟨2, 6⟩ := by
   have h' : t.hold ≠ 0 ∧ t.hold < holdMin := by simp only [holdMin]; omega
   simp only [validateOpen, if_neg hp, if_neg hi, if_neg hc, if_pos h']
 
-/-- **The refusals are the RFC ones — partial (F4).** For a 2-octet local AS (other than the
-    reserved AS_TRANS) and a peer with RFC 6793 AS fields, `validate` refuses exactly when the RFCs
-    require it (`rfcRefusals`: 2/2 unacceptable peer AS on the *true* AS number, 2/3 zero
-    identifier, 2/3 internal peer with our identifier, 2/6 hold time 1–2) and with the subcode of
-    the first such fault; otherwise only the multisession draft's verdict remains.
-    Full clause = the same without `h2`; false for a 4-octet local AS (`ibgp_same_id_F4`). -/
-theorem refusals_are_rfc_partial (cfg : Cfg) (t : OpenMsg) (hc : consistentAs t)
-    (h2 : cfg.localAs ≤ 65535) (ht : cfg.localAs ≠ asTrans) :
+/-- **The refusals are the RFC ones.** For a peer with RFC 6793 AS fields, `validate` refuses
+    exactly when the RFCs require it (`rfcRefusals`: 2/2 unacceptable peer AS on the *true* AS
+    number, 2/3 zero identifier, 2/3 internal peer with our identifier, 2/6 hold time 1–2) and with
+    the subcode of the first such fault; otherwise only the multisession draft's verdict remains. -/
+theorem refusals_are_rfc (cfg : Cfg) (t : OpenMsg) (hc : consistentAs t) :
     validateOpen cfg (negotiate (ourOpen cfg) t) t =
       match (rfcRefusals cfg.localAs cfg.peerAs cfg.routerId (ourOpen cfg) t).head? with
       | some e => some e
       | none => msVerdict (negotiate (ourOpen cfg) t) :=
-  validate_eq_rfc cfg t hc h2 ht
+  validate_eq_rfc cfg t hc
 
 /-! ## Generated tables = the specification the model is written against -/
 
@@ -394,19 +377,19 @@ example : decodeOpen (encodeOpen (pad 146)) = .ok (pad 146) ∧ decodeOpen (enco
 /-- …and the one-octet form with a 255-octet block (another speaker's choice) still decodes. -/
 example : decodeOpen (encodeOpenG false 4 1 3 1 ((pad 147).caps.map (fun c => [c]))) = .ok (pad 147) := by decide +kernel
 
-/-- F4 witness: local AS 70000 (iBGP with 70000): the session runs with local AS 23456. -/
+/-- F4 witness (repaired): local AS 70000 (iBGP with 70000): the session runs with local AS 70000. -/
 def f4Cfg : Cfg := { localAs := 70000, peerAs := 70000, routerId := 16843009, hold := 180, families := [(1, 1)] }
 def f4Peer (id : Nat) : OpenMsg :=
   { version := 4, myAs := 23456, hold := 180, bgpId := id, caps := [.mp 1 1, .asn4 70000] }
-example : (negotiate (ourOpen f4Cfg) (f4Peer 33686018)).localAs = 23456
+example : (negotiate (ourOpen f4Cfg) (f4Peer 33686018)).localAs = 70000
     ∧ (rfcNegotiate (ourOpen f4Cfg) (f4Peer 33686018)).localAs = 70000
     ∧ (negotiate (ourOpen f4Cfg) (f4Peer 33686018)).peerAs = 70000 := by decide
 
-/-- **F4 (same cause) — an internal peer presenting our own BGP identifier is accepted** when the
-    local AS needs 4 octets: the RFC 6286 refusal (2/3) is required, `validate` returns nothing. -/
-theorem ibgp_same_id_F4 :
+/-- F4 (same cause, repaired): an internal peer presenting our own BGP identifier is refused 2/3
+    also when the local AS needs 4 octets. -/
+example :
     rfcRefusals f4Cfg.localAs f4Cfg.peerAs f4Cfg.routerId (ourOpen f4Cfg) (f4Peer 16843009) = [⟨2, 3⟩]
-      ∧ validateOpen f4Cfg (negotiate (ourOpen f4Cfg) (f4Peer 16843009)) (f4Peer 16843009) = none := by decide
+      ∧ validateOpen f4Cfg (negotiate (ourOpen f4Cfg) (f4Peer 16843009)) (f4Peer 16843009) = some ⟨2, 3⟩ := by decide
 
 /-- ADD-PATH octet 5 from the peer: the code reads "receive" (bit 1) and sends path identifiers;
     RFC 7911 §4 (SHOULD) treats the entry as not understood. -/
@@ -419,7 +402,7 @@ theorem addpath_octet_5_deviation :
 example : decodeOpen [4, 0, 1, 0, 3, 1, 1, 1, 1] = .error ⟨1, 2⟩ := by decide
 example : decodeOpen [3, 0, 1, 0, 3, 1, 1, 1, 1, 0] = .error ⟨2, 1⟩ := by decide
 example : decodeOpen [4, 0, 1, 0, 3, 1, 1, 1, 1, 6, 2, 2, 2, 0, 1, 0] = .error ⟨2, 5⟩ := by decide
-example : decodeOpen [4, 0, 1, 0, 3, 1, 1, 1, 1, 6, 2, 2, 2, 0, 3, 0] = .error ⟨2, 0⟩ := by decide
+example : decodeOpen [4, 0, 1, 0, 3, 1, 1, 1, 1, 6, 2, 2, 2, 0, 3, 0] = .error ⟨2, 4⟩ := by decide
 example : decodeOpen (openRaw true 1 3 1 (encParams true [[.refresh]] ++ (rawParam true 1 [9] ++ []))) = .error ⟨2, 5⟩ := by decide
 
 end Exa.Props.C07
